@@ -11,12 +11,12 @@ Tr == ndJsonDeserialize(IOEnv.TRACE)
 Val(x) == IF "w" \in DOMAIN x THEN x.w ELSE x.y
 Accept(e) ==
   LET a == e.alt  r == e.ref IN
-  /\ NotFar(Val(r), Val(a))
+  /\ NotFar(Val(r), Val(a), e.width)
   \* for sqrt/log on the real axis, -z lies on the branch cut (sign of zero decides): not compared
-  /\ (a.k = "u" => Structure(a) /\ NotFar(r.wc, a.wc) /\ ((a.cut = 1 /\ SignIm(a.z) = 0) \/ NotFar(r.wn, a.wn)))
+  /\ (a.k = "u" => Structure(a, e.width) /\ NotFar(r.wc, a.wc, e.width) /\ ((a.cut = 1 /\ SignIm(a.z) = 0) \/ NotFar(r.wn, a.wn, e.width)))
   /\ (a.k = "b" => ExactRule(a))
   /\ (a.k \in {"r", "r2"} => Finite(a.y))
-Inconclusive(e) == DistClass(Val(e.ref), Val(e.alt)) = 1
+Inconclusive(e) == DistClass(Val(e.ref), Val(e.alt), e.width) = 1
 TraceInit == l = 1
 Step == /\ l <= Len(Tr)
         /\ (IF Accept(Tr[l]) = TRUE THEN TRUE ELSE PrintT(<<"TRACE-BAD", l>>))
